@@ -6,7 +6,11 @@
 (* the sliding windows of a given size.                                    *)
 (*                                                                         *)
 (* opt is the way the element is constructed / fed:                        *)
-(*   reverse  kind of the flow: iterator, list, tuple, generator, range    *)
+(*   reverse  kind of the flow: iterator, list, tuple, generator, range,   *)
+(*            collections.deque, a dict keys view, "useq" (a registered    *)
+(*            Sequence with integer indices only), "legacy" (an object     *)
+(*            without __iter__, iterated through __getitem__), "bare" (an  *)
+(*            object with __iter__ only); see SliceFlow.tla                *)
 (*   chunk    container of the windows: "tuple" (default), "tuple_it"      *)
 (*            (tuple, from_iterable=True), "list_it", "list_it1"           *)
 (*            (from_iterable=1), "set_it", "frozenset_it", "tuplesub_it"   *)
@@ -24,7 +28,7 @@ EXTENDS Integers, Sequences, TLC, Json
 CONSTANTS MaxN, MaxK
 Starts == {-2, 0, 3}
 StepsC == {-1, 0, 1, 2}
-RevOpts == {"iter", "list", "tuple", "gen", "range"}
+RevOpts == {"iter", "list", "tuple", "gen", "range", "deque", "keys", "useq", "legacy", "bare"}
 ChunkOpts == {"tuple", "tuple_it", "list_it", "list_it1", "set_it", "frozenset_it", "tuplesub_it", "nt", "fn_pos", "fn_it"}
 ChainOpts == {"0", "1list", "2list", "3list", "3tuple", "3range", "3gen", "3iter", "3mixed"}
 CountOpts == {"both", "kwboth", "start", "kwstep", "none"}
